@@ -96,7 +96,7 @@ inductive Effect where
   deriving DecidableEq, Repr
 
 structure RtspOut where
-  /-- status code; 0 = no response written (PLAY while playing) -/
+  /-- status code of the response -/
   code : Nat
   eff : Effect := .none
   deriving DecidableEq, Repr
@@ -168,9 +168,73 @@ def World.register (cfg : Cfg) (w : World) (path : List Char) (owner : Nat) : Wo
 def World.unregisterOwner (w : World) (owner : Nat) : World :=
   { w with streams := w.streams.filter (·.owner ≠ some owner) }
 
+abbrev StepRes := World × RtspSess × RtspOut
+
+/-- onDescribe -/
+def onDescribe (cfg : Cfg) (w : World) (s : RtspSess) (user : Option User) (rq : RtspReq) : StepRes :=
+  -- a WebSocket session keeps the path it has (the ws:// path, or what ANNOUNCE set)
+  let s := if s.ws.isNone then { s with path := canonicalPath cfg rq.urlPath } else s
+  match w.getOrCreate cfg s.path with
+  | none => (w, s, { code := 404 })
+  | some st =>
+    if !checkPermission cfg w s user .pull then (w, s, { code := 403 })
+    else (w, { s with hasSdp := true, mode := .play }, { code := 200, eff := .describe st.key })
+
+/-- onAnnounce -/
+def onAnnounce (cfg : Cfg) (w : World) (s : RtspSess) (user : Option User) (rq : RtspReq) : StepRes :=
+  if !rq.ctOk then (w, s, { code := 400 })
+  else
+    let s := { s with path := canonicalPath cfg rq.urlPath }
+    if !checkPermission cfg w s user .push then (w, s, { code := 403 })
+    else if !rq.sdpOk then (w, s, { code := 400 })
+    else (w, { s with hasSdp := true, mode := .record }, { code := 200 })
+
+/-- onSetup -/
+def onSetup (cfg : Cfg) (w : World) (s : RtspSess) (user : Option User) (rq : RtspReq) : StepRes :=
+  if !s.hasSdp || rq.ctrl = .unknown then (w, s, { code := 500 })
+  else
+    let (tt, tm, err) := parseTransport s.ttype s.tmode rq.tr
+    let s := { s with ttype := tt, tmode := tm }
+    if err then (w, s, { code := 451 })
+    else
+      let s := if s.mode = .unknown then { s with mode := tm } else s
+      if s.mode ≠ tm then (w, s, { code := 451 })
+      else if s.mode = .record then
+        if !checkPermission cfg w s user .push then (w, s, { code := 403 })
+        else if s.ttype ≠ .tcp then (w, s, { code := 461 })
+        else (w, { s with status := if s.status = .init then .ready else s.status }, { code := 200 })
+      else
+        if !checkPermission cfg w s user .pull then (w, s, { code := 403 })
+        else if s.ttype = .mcast then
+          match w.getOrCreate cfg s.path with
+          | none => (w, s, { code := 404 })
+          | some _ => (w, s, { code := 461 })    -- harness streams are not multicast capable
+        else (w, { s with status := if s.status = .init then .ready else s.status }, { code := 200 })
+
+/-- onRecord -/
+def onRecord (cfg : Cfg) (w : World) (s : RtspSess) (user : Option User) : StepRes :=
+  if s.status = .recording then (w, s, { code := 200 })
+  else if s.mode ≠ .record || s.ttype ≠ .tcp then (w, s, { code := 455 })
+  else if !checkPermission cfg w s user .push then (w, s, { code := 403 })
+  else
+    let (w', key) := w.register cfg s.path s.id
+    (w', { s with status := .recording }, { code := 200, eff := .publish key })
+
+/-- onPlay -/
+def onPlay (cfg : Cfg) (w : World) (s : RtspSess) (user : Option User) : StepRes :=
+  if s.status = .playing then (w, s, { code := 200 })
+  else if s.mode ≠ .play || s.ttype = .unknown then (w, s, { code := 455 })
+  else
+    match w.getOrCreate cfg s.path with
+    | none => (w, s, { code := 404 })
+    | some st =>
+      if !checkPermission cfg w s user .pull then (w, s, { code := 403 })
+      else if s.ttype = .mcast then (w, s, { code := 461 })
+      else (w, { s with status := .playing }, { code := 200, eff := .play st.key })
+
 /-- one RTSP request on a session (onRequest).  `newResponse` puts the nonce of the moment into the
     response before anything else happens. -/
-def rtspStep (cfg : Cfg) (w : World) (s0 : RtspSess) (rq : RtspReq) : World × RtspSess × RtspOut :=
+def rtspStep (cfg : Cfg) (w : World) (s0 : RtspSess) (rq : RtspReq) : StepRes :=
   let s := if s0.digest then { s0 with shown := some s0.nonce } else s0
   -- onPreprocess
   if rq.method = .options then (w, s, { code := 200 })
@@ -185,58 +249,11 @@ def rtspStep (cfg : Cfg) (w : World) (s0 : RtspSess) (rq : RtspReq) : World × R
     (w, s, { code := 401 })
   | (some user, _) =>
     match rq.method with
-    | .describe =>
-      -- a WebSocket session keeps the path it has (the ws:// path, or what ANNOUNCE set)
-      let s := if s.ws.isNone then { s with path := canonicalPath cfg rq.urlPath } else s
-      match w.getOrCreate cfg s.path with
-      | none => (w, s, { code := 404 })
-      | some st =>
-        if !checkPermission cfg w s user .pull then (w, s, { code := 403 })
-        else (w, { s with hasSdp := true, mode := .play }, { code := 200, eff := .describe st.key })
-    | .announce =>
-      if !rq.ctOk then (w, s, { code := 400 })
-      else
-        let s := { s with path := canonicalPath cfg rq.urlPath }
-        if !checkPermission cfg w s user .push then (w, s, { code := 403 })
-        else if !rq.sdpOk then (w, s, { code := 400 })
-        else (w, { s with hasSdp := true, mode := .record }, { code := 200 })
-    | .setup =>
-      if !s.hasSdp || rq.ctrl = .unknown then (w, s, { code := 500 })
-      else
-        let (tt, tm, err) := parseTransport s.ttype s.tmode rq.tr
-        let s := { s with ttype := tt, tmode := tm }
-        if err then (w, s, { code := 451 })
-        else
-          let s := if s.mode = .unknown then { s with mode := tm } else s
-          if s.mode ≠ tm then (w, s, { code := 451 })
-          else if s.mode = .record then
-            if !checkPermission cfg w s user .push then (w, s, { code := 403 })
-            else if s.ttype ≠ .tcp then (w, s, { code := 461 })
-            else (w, { s with status := if s.status = .init then .ready else s.status }, { code := 200 })
-          else
-            if !checkPermission cfg w s user .pull then (w, s, { code := 403 })
-            else if s.ttype = .mcast then
-              match w.getOrCreate cfg s.path with
-              | none => (w, s, { code := 404 })
-              | some _ => (w, s, { code := 461 })    -- harness streams are not multicast capable
-            else (w, { s with status := if s.status = .init then .ready else s.status }, { code := 200 })
-    | .record =>
-      if s.status = .recording then (w, s, { code := 200 })
-      else if s.mode ≠ .record || s.ttype ≠ .tcp then (w, s, { code := 455 })
-      else if !checkPermission cfg w s user .push then (w, s, { code := 403 })
-      else
-        let (w', key) := w.register cfg s.path s.id
-        (w', { s with status := .recording }, { code := 200, eff := .publish key })
-    | .play =>
-      if s.status = .playing then (w, s, { code := 0 })
-      else if s.mode ≠ .play || s.ttype = .unknown then (w, s, { code := 455 })
-      else
-        match w.getOrCreate cfg s.path with
-        | none => (w, s, { code := 404 })
-        | some st =>
-          if !checkPermission cfg w s user .pull then (w, s, { code := 403 })
-          else if s.ttype = .mcast then (w, s, { code := 461 })
-          else (w, { s with status := .playing }, { code := 200, eff := .play st.key })
+    | .describe => onDescribe cfg w s user rq
+    | .announce => onAnnounce cfg w s user rq
+    | .setup => onSetup cfg w s user rq
+    | .record => onRecord cfg w s user
+    | .play => onPlay cfg w s user
     | _ => (w, s, { code := 455 })
 
 /-! ## WebSocket upgrade on /streams/ -/
@@ -299,7 +316,7 @@ def wspMethodAllowed (st : Status) (m : Method) : Bool :=
   match st with
   | .ready => m = .setup || m = .play
   | .playing => m = .play || m = .pause
-  | _ => !(m = .play || m = .record)
+  | _ => !(m = .play || m = .record || m = .pause)
 
 /-- wsp Session.checkPermission (added by the fix): the pull right of the control channel's user, now -/
 def wspPermitted (cfg : Cfg) (w : World) (s : WspSess) : Bool :=
